@@ -62,6 +62,49 @@ func injectEntropyFaults(r *rand.Rand, p *vm.Plan) {
 	p.Note = "history with entropy faults"
 }
 
+// genC20Special: sources with a history. (a) A source that replays the seed of an earlier
+// operation of the same chain and dies right after it; (b) one token builder, built several times
+// from one long source that dies in the middle of a later draw and stays dead.
+func genC20Special(r *rand.Rand) *vm.Plan {
+	g := gen.New(r)
+	b := newPB(r)
+	key := b.key(false)
+	stream := func(n int) []byte { s := make([]byte, n); r.Read(s); return s }
+	if r.Intn(2) == 0 {
+		first := stream(32)
+		t := b.add(vm.Op{K: "build", A: key, Blk: blkp(g.Block(2, 1, 1)), Ent: &vm.Entropy{Bytes: hex.EncodeToString(first)}, Out: b.slot()})
+		if r.Intn(2) == 0 {
+			t = b.attenuate(t, g.Block(1, 1, 1))
+		}
+		// the same 32 bytes again, then the source fails
+		replay := append(append([]byte{}, first...), stream(16)...)
+		b.add(vm.Op{K: "attenuate", A: t, Blk: blkp(g.Block(2, 1, 1)), Ent: &vm.Entropy{Bytes: hex.EncodeToString(replay), Script: []vm.ReadStep{{Kind: "all"}, {Kind: c20Fails[r.Intn(3)]}}}, Out: b.slot()})
+		b.p.Note = "replayed seed then failure"
+		return b.p
+	}
+	good := 1 + r.Intn(5)
+	k := r.Intn(32)
+	ent := &vm.Entropy{Bytes: hex.EncodeToString(stream(32*good + k + 64))}
+	for i := 0; i < good; i++ {
+		ent.Script = append(ent.Script, vm.ReadStep{Kind: "all"})
+	}
+	ent.Script = append(ent.Script, c20Script(k, r.Intn(4), c20Fails[r.Intn(3)])...)
+	var rid *uint32
+	if r.Intn(2) == 0 {
+		rid = u32p(uint32(r.Intn(3)))
+	}
+	bld := b.add(vm.Op{K: "bld", A: key, Ent: ent, RootID: rid, Out: b.slot()})
+	b.add(vm.Op{K: "bldadd", A: bld, Blk: blkp(g.Block(2, 1, 1))})
+	for i := 0; i < good+2+r.Intn(2); i++ {
+		if r.Intn(3) == 0 {
+			b.add(vm.Op{K: "bldadd", A: bld, Blk: blkp(g.Block(1, 0, 0))})
+		}
+		b.add(vm.Op{K: "bldbuild", A: bld, Out: b.slot()})
+	}
+	b.p.Note = "one builder, one long source dying mid-way"
+	return b.p
+}
+
 func genC20(r *rand.Rand, run int, tier string) *vm.Plan {
 	if run >= c20Enum && r.Intn(2) == 0 {
 		// exploration tier: entropy faults sprinkled into multi-party / family histories; invariant:
@@ -74,6 +117,9 @@ func genC20(r *rand.Rand, run int, tier string) *vm.Plan {
 		}
 		injectEntropyFaults(r, p)
 		return p
+	}
+	if run >= c20Enum && r.Intn(6) == 0 {
+		return genC20Special(r)
 	}
 	g := gen.New(r)
 	b := newPB(r)
